@@ -240,6 +240,8 @@ func cerrClass(msg string) string {
 		return "ECAConfigIndex"
 	case strings.Contains(msg, "there must be exactly one active CA"):
 		return "EActiveRoots"
+	case strings.Contains(msg, "is replaced by a later entry with the same ID"):
+		return "EActiveReplaced"
 	case strings.Contains(msg, state.ErrMissingCARootID.Error()):
 		return "ERootID"
 	case strings.Contains(msg, state.ErrMissingACLTokenSecret.Error()):
